@@ -7,6 +7,11 @@ ids = [p["id"] for p in props]
 
 # id -> (category, technique, level text, level note, design ref)
 CHECKS = {
+ "C12": ("model_checking",
+         "explicit-state BFS over the real multisig actor with a quorum reference model in lock-step",
+         "Every interleaving up to the depth bound of propose/approve/cancel by three signers and an outsider (with no/right/wrong proposal hash), direct admin calls, self-administration transactions (add/remove/swap signer by ID and by key address, threshold, lock), re-entrant self Approve/Propose and time steps over the vesting lock is executed on the real actor from five base wallets; after every step accept/reject, the ordered list of sends leaving the wallet, signers, threshold, pending approvals, lock and balance must equal an independent quorum model that executes a transaction only with >= threshold distinct current signers, once, within the lock.",
+         "mcvm stands in for the FVM; transactions come from a fixed menu; amounts from {15, 50, -1}; at most 3-4 proposals per history.",
+         "DESIGN.md §3 C12"),
  "C16": ("model_checking",
          "explicit-state BFS over the real paych actor with a lane reference model in lock-step",
          "Every sequence up to the depth bound of vouchers from the declared grid (lane x nonce x amount x merges, plus one-field deviations: signer, submitter, time lock, secret, settle height, channel, signature), settle/collect by each party and time steps is executed on the real actor; after every step the decoded channel state must equal an independent lane model and collect payouts are checked from balance deltas.",
